@@ -209,10 +209,46 @@ pub fn run_c20(o: &Opts, _deck: &str) -> String {
             out.line_to(1, &l); // one shard: the per-node judgement looks across epochs
         }
     }
+    // ---- the same transcript from a second process (a re-run, a resumed training)
+    {
+        let here = catch(|| c20_probe()).unwrap_or("P".into());
+        let there = std::env::current_exe().ok()
+            .and_then(|exe| std::process::Command::new(exe).arg("c20probe").output().ok())
+            .map(|o| String::from_utf8_lossy(&o.stdout).trim().to_string())
+            .unwrap_or("unavailable".into());
+        let h = |s: &String| { let mut x: u64 = 0xcbf29ce484222325; for c in s.bytes() { x = (x ^ c as u64).wrapping_mul(0x100000001b3); } format!("{:016x}", x) };
+        out.line(&format!("xproc 24 | {} {} {}", h(&here), h(&there), if there == "unavailable" || there.is_empty() { 0 } else { 1 }));
+    }
     let lines = out.finish();
     format!("{{\"lines\":{},\"sampler_calls\":{},\"deep_infoset_groups\":{}}}", lines, calls, deep_groups)
 }
 
+/// a transcript of the sampler that depends on nothing but (epoch, information set): the first PRNG word and the sampled
+/// branch at two hand-built nodes over 24 epochs.  Printed by the sub-command `c20probe`, so that a second PROCESS can
+/// be compared with this one.
+pub fn c20_probe() -> String {
+    use rand::Rng as _;
+    let mut tree = Tree::empty(Player::default());
+    let root = tree.plant(fixed_data(Game::root())).index();
+    let second = {
+        let brs = { let node = tree.at(root); fixed_branches(&node) };
+        let b = brs.into_iter().find(|b| *b.edge() == Edge::Call).expect("limp on the menu");
+        tree.fork(b).index()
+    };
+    let mut profile = Profile::default();
+    let mut out = vec![];
+    for _ in 0..24 {
+        for ix in [root, second] {
+            let node = tree.at(ix);
+            profile.witness(&node, &fixed_branches(&node));
+            let w = profile.rng(&node).gen::<u64>();
+            let e = edge_tok(profile.explore_one(fixed_branches(&node), &node)[0].edge());
+            out.push(format!("{}:{}", w, e));
+        }
+        profile.next();
+    }
+    out.join(",")
+}
 fn fixed_data(game: Game) -> Data {
     Data::from((game, Abstraction::from((game.street(), 7))))
 }
